@@ -94,6 +94,10 @@ class ScriptedNet(Net):
             peer.eof()
         elif r[0] == "garbage":
             peer.send(b"garbage-not-http\r\n\r\n")
+        elif r[0] == "tls":
+            # what arrives instead of the response cannot be decrypted: the TLS layer reports it from recv()
+            import ssl
+            peer.fail(ssl.SSLError(1, "[SSL: DECRYPTION_FAILED_OR_BAD_RECORD_MAC] decryption failed or bad record mac (fake)"))
         elif r[0] == "interrupt":
             peer.fail(KeyboardInterrupt())
         elif r[0] == "timeout":
